@@ -119,4 +119,98 @@ def wrapperOp : Op → List Ev
 /-- the events of a sequence of calls, each tagged with the call it belongs to -/
 def wrapperRun (ops : List Op) : List (Op × List Ev) := ops.map (fun o => (o, wrapperOp o))
 
+/-! ### T: shapes `sxfacts` reports about the wrappers and the wiring, and how the model reads them
+
+`Generated/Limiter.lean` is plain data regenerated from the tree on every run.  `wrapperEvents` gives that
+data its meaning: the ordered events a call of method `name` on the wrapper type produces.  A body is only
+understood if it is a straight line of call statements (any `if`/`for`/`go`/`defer`/closure/nested call is
+reported with another `kind` or a `callCount` that differs from the number of statements, and the reading
+is `none`). -/
+
+structure CallStmt where
+  kind : String          -- "expr" = a call as a statement; "return" = `return <one call>`; else not understood
+  callee : List String   -- selector path of the call, e.g. ["rw", "limiter", "Take"]
+  args : List String     -- argument expressions, source text
+  deriving Repr, DecidableEq
+
+structure MethodFacts where
+  name : String
+  recv : String          -- receiver variable
+  params : List String   -- parameter names in order
+  body : List CallStmt   -- top-level statements in order
+  callCount : Nat        -- call expressions anywhere in the body (nested, closures, go/defer included)
+  deriving Repr, DecidableEq
+
+structure WrapperFacts where
+  typeName : String
+  embedded : List String              -- embedded (promoting) fields: type names
+  fields : List (String × String)     -- named fields: (name, type)
+  methods : List MethodFacts          -- every method declared on the type, anywhere in its package
+  ctorName : String
+  ctorParams : List (String × String) -- (name, type)
+  ctorResult : String                 -- `T` when the body is `return &T{…}`, "" if it is anything else
+  ctorInit : List (String × String)   -- (field, expression) of that literal
+  deriving Repr, DecidableEq
+
+structure WiringFacts where
+  func : String
+  guard : List String          -- condition of the `if` that installs the limiter: [lhs, operator, rhs]
+  guardHasElse : Bool
+  guardedStmts : Nat           -- statements in the `if` body
+  target : String              -- variable assigned there
+  wrapperCtor : String         -- e.g. "packet.NewRateLimitReadWriter"
+  wrapped : String             -- first argument: the object being wrapped
+  limiterCtor : String         -- e.g. "ratelimit.New"
+  limiterArgs : List (String × List String)  -- all its arguments: (callee, its arguments) or ("", [expression])
+  limiterArgPaths : List (List String)       -- selector path of the (innermost) argument of each
+  targetInit : String          -- what `target` holds when the guard is false
+  otherAssignments : Nat       -- further assignments to `target` in the function
+  consumer : String            -- the call that receives `target` afterwards
+  consumerArgs : List String
+  deriving Repr, DecidableEq
+
+/-- the field that holds the limiter: the only named field of the wrapper struct -/
+def limiterField (w : WrapperFacts) : Option String :=
+  match w.fields with
+  | [(f, _)] => some f
+  | _ => none
+
+def stmtEvent (w : WrapperFacts) (lf : String) (m : MethodFacts) (s : CallStmt) : Option Ev :=
+  if s.kind == "expr" && s.callee == [m.recv, lf, "Take"] && s.args == [] then some .take
+  else if s.kind == "return" && w.embedded.any (fun e => s.callee == [m.recv, e, m.name]) && s.args == m.params then
+    some .delegate
+  else none
+
+def methodEvents (w : WrapperFacts) (lf : String) (m : MethodFacts) : Option (List Ev) :=
+  if m.callCount == m.body.length then m.body.mapM (stmtEvent w lf m) else none
+
+/-- the events of a call of method `name` on the wrapper; a method that the type does not declare is the
+    embedded delegate's (Go method promotion) -/
+def wrapperEvents (w : WrapperFacts) (name : String) : Option (List Ev) :=
+  match limiterField w with
+  | none => none
+  | some lf =>
+    match w.methods.filter (·.name == name) with
+    | [] => if w.embedded.length == 1 then some [.delegate] else none
+    | [m] => methodEvents w lf m
+    | _ => none
+
+/-- the constructor stores its first parameter in the embedded field and its second in the limiter field -/
+def ctorOK (w : WrapperFacts) : Bool :=
+  match w.ctorParams, w.embedded, limiterField w with
+  | [(d, _), (l, _)], [e], some lf => w.ctorResult == w.typeName && w.ctorInit == [(e, d), (lf, l)]
+  | _, _, _ => false
+
+/-- the wiring installs the wrapper exactly when `<x>.rateCount > 0`, around the object that would be used
+    otherwise, with `ratelimit.New(<x>.rateCount, ratelimit.Per(<x>.rateWindow))` and no further option, and
+    hands the result (and nothing else) to `consumer` -/
+def wiringOK (w : WiringFacts) (wrapperCtor consumer : String) : Bool :=
+  (match w.guard, w.limiterArgs, w.limiterArgPaths with
+   | [cnt, ">", "0"], [("", [cnt']), ("ratelimit.Per", [_])], [pc, pw] =>
+     cnt == cnt' && pc.dropLast == pw.dropLast && pc.getLast? == some "rateCount" && pw.getLast? == some "rateWindow"
+   | _, _, _ => false) &&
+  !w.guardHasElse && w.guardedStmts == 1 && w.wrapperCtor == wrapperCtor && w.limiterCtor == "ratelimit.New" &&
+  w.wrapped == w.targetInit && w.otherAssignments == 0 && w.consumer == consumer &&
+  (w.consumerArgs.filter (· == w.target)).length == 1
+
 end SxVerif.Limiter
